@@ -1,4 +1,6 @@
 """C05 - linear memory instructions."""
+import os
+from core import Job, REPO, H
 from e2 import e2_job
 import families as F
 import wasmvalid
@@ -20,6 +22,11 @@ META = {
 
 def make_jobs(ctx):
     jobs = []
+    src = os.path.join(H, 'kernels', 'c05_grow.c')
+    incs = [os.path.join(REPO, 'w2c2')]
+    jobs.append(Job('kernel_grow_size_arithmetic', [src], entry='harness_grow', incs=incs, unwind=4, backends=['cvc5', 'z3', 'kissat'],
+                    witnesses=['end', 'refused', 'grown'], timeout=300, replay=dict(sources=[src], incs=incs, defs=['-Dharness=harness_grow']),
+                    sample={'kernel': 'wasmMemoryGrow with the real 65536-byte page size', 'inputs': 'all initial sizes <= max <= 65536 pages, all deltas', 'stubs': 'realloc/memset record 64-bit sizes'}))
     for (name, m, script, hk) in F.memory_family(ctx.seed, ctx.quick):
         wasmvalid.validate(m)
         jobs.append(e2_job(ctx, name, m, script, backends=['sat', 'kissat', 'z3'], unwind=14, harness_kw=hk, page=64,
